@@ -187,11 +187,13 @@ class _Rename(ast.NodeTransformer):
         return super().generic_visit(node)
 
 
-def dename(tree: ast.AST, rel: str) -> int:
+def dename(tree: ast.AST, rel: str, src_digest: str | None = None) -> int:
     """Rename locals of the functions in `tree` (in place) to their reference names.  Returns the number of renames."""
     ref = _ref().get(rel)
     if not ref:
         return 0
+    if src_digest is not None and ref.get("#digest") == src_digest:
+        return 0        # the file is byte-identical to the one the names were taken from
     total = 0
     seen = {}
     for q, fn in functions(tree):
@@ -243,8 +245,10 @@ def build_reference(root: str, rels: list[str]) -> dict:
     out = {}
     for rel in rels:
         with open(os.path.join(root, rel), encoding="utf-8") as f:
-            tree = ast.parse(f.read(), filename=rel)
-        d = {}
+            src = f.read()
+        tree = ast.parse(src, filename=rel)
+        import hashlib
+        d = {"#digest": hashlib.sha256(src.encode("utf-8")).hexdigest()}
         seen = {}
         for q, fn in functions(tree):
             seen[q] = seen.get(q, 0) + 1
